@@ -271,6 +271,8 @@ def extend_schema(
                 builder.build_type(op_def.type)
             )
 
+    default_resolver = schema.default_resolver
+
     schema = Schema(
         query_type=operation_types["query"],
         mutation_type=operation_types["mutation"],
@@ -279,6 +281,7 @@ def extend_schema(
         directives=directives,
         nodes=(schema.nodes or []) + (schema_exts or []),  # type: ignore
     )
+    schema.default_resolver = default_resolver
 
     if schema_directives is not None:
         schema = apply_schema_directives(schema, schema_directives)
